@@ -1,0 +1,9 @@
+//go:build verif
+
+package parser
+
+// VerifLexerStateCount reports how many lexers currently have indentation state in the
+// process-global map (verification hook; only with `-tags verif`).
+func VerifLexerStateCount() int {
+	return lexerStates.Len()
+}
